@@ -52,6 +52,13 @@ SMD(a, b, c) ==
 \* x*x/S for 0 <= x <= 4*10^6 (error < 1)
 Sq4(x) == LET x1 == x \div S  x0 == x % S IN x1 * x1 * S + 2 * x1 * x0 + (x0 * x0) \div S
 
+\* x*v/S, truncated towards zero, without overflow for |v| <= 2*10^5 when the result fits (cheap: no recursion)
+MulS(x, v) ==
+  LET ax == Abs(x)  av == Abs(v) IN Sgn(x) * Sgn(v) * ((ax \div S) * av + ((ax % S) * av) \div S)
+DivT(a, g) == Sgn(a) * (Abs(a) \div g)                    \* a/g truncated towards zero
+\* c*w/10^6 for |c|, |w| <= 2*10^7 (error < 2), cheap: w = w1*100 + w0
+FW(c, w) == LET aw == Abs(w) IN Sgn(w) * (MulS(c, aw \div 100) + DivT(c * (aw % 100), SW))
+
 AbsSum(s) == SumSeq([q \in 1..Len(s) |-> Abs(s[q])])
 MaxOf(s)  == IF Len(s) = 0 THEN 0 ELSE MaxSeq(s)
 
@@ -65,26 +72,35 @@ Summary(X, p) ==
   LET n  == Len(X)
       cs == [j \in 1..p |-> ColSum(X, j)]
       M  == [j \in 1..p |-> [l \in 1..p |-> n * Gram(X, j, l) - cs[j] * cs[l]]]
-  IN [n |-> n, p |-> p, cs |-> cs, M |-> M, tr |-> SumSeq([j \in 1..p |-> M[j][j]])]
+      tr == SumSeq([j \in 1..p |-> M[j][j]])
+      \* scale reduction: entries of M/g (|.| <= tr/g < 150000) can be multiplied with a component directly
+      g  == IF tr < 150000 THEN 1 ELSE IF tr < 1500000 THEN 10 ELSE IF tr < 15000000 THEN 100
+            ELSE IF tr < 150000000 THEN 1000 ELSE 10000
+  IN [n |-> n, p |-> p, cs |-> cs, M |-> M, tr |-> tr, g |-> g,
+      Mg |-> [j \in 1..p |-> [l \in 1..p |-> DivT(M[j][l], g)]],                       \* M = Mg * g + Mr
+      Mr |-> [j \in 1..p |-> [l \in 1..p |-> M[j][l] - g * DivT(M[j][l], g)]],
+      ra |-> [j \in 1..p |-> SumSeq([l \in 1..p |-> Abs(M[j][l]) \div g])],             \* |row j of M| / g
+      Mn |-> [j \in 1..p |-> [l \in 1..p |-> IF tr > 0 THEN SMD(M[j][l], S, tr) ELSE 0]]]   \* M / tr at scale S
 
 \* n * (row - mean), exact
 Yc(D, row) == [j \in 1..D.p |-> D.n * row[j] - D.cs[j]]
 
 \* the arithmetic below is inside 31 bits for these magnitudes (guaranteed by the generators)
-InDomain(D) == /\ D.n >= 2 /\ D.n <= 20 /\ D.p >= 1 /\ D.p <= 12
-               /\ D.tr >= 1 /\ D.tr <= 1400000 /\ D.tr \div D.n <= 140000
+InDomain(D) == /\ D.n >= 2 /\ D.n <= 400 /\ D.p >= 1 /\ D.p <= 30
+               /\ D.tr >= 1 /\ D.tr <= 1400000000 /\ D.tr \div D.n <= 140000
 
 \* scale reduction for quantities of the size tr(M) * S
-G(D) == IF D.tr < 150000 THEN 1 ELSE 10
-TolRel(D, g) == (D.tr \div g + 1) * (S \div 1000)          \* 10^-3 of tr(M), in units of S/g
+G(D) == D.g
+TolRel(D, g) == (D.tr \div g + 1) * (S \div 10000)         \* numerical allowance: 10^-4 of tr(M), in units of S/g
 
-Rt(n) == Isqrt((n - 1) * S * S)                           \* sqrt(n-1) at scale S
+\* sqrt(n-1) at scale S (relative error < 1e-4 for n <= 22, < 2.2e-4 beyond)
+Rt(n) == IF n <= 22 THEN Isqrt((n - 1) * S * S) ELSE 10 * Isqrt((n - 1) * 1000000)
 
 -----------------------------------------------------------------------------
 (* the fitted model: f has the fields of the logged "fit" event                                  *)
 (*   mean, sig, sigk (order keys), comp, evar, evr, fin, evfin, evrfin ; k, wh are the request   *)
 
-SigFloor   == 100                                         \* sigma >= 0.01 (arithmetic guard)
+SigFloor   == 1000                                        \* sigma >= 0.1 (arithmetic guard)
 SigCap(D)  == (Isqrt(D.tr \div D.n) + 2) * S              \* sigma_i^2 <= tr(Xc^T Xc)
 S2(f, i)   == Sq4(f.sig[i])                               \* sigma_i^2 at scale S
 SigC(f, i) == f.sig[i] \div S + 2                         \* quantisation of sigma_i^2, units of S
@@ -108,18 +124,26 @@ SigOk(D, k, f) ==
 
 \* magnitude guards (implied by unit length; keep every later product inside 31 bits)
 CompBound(D, k, wh, f) ==
-  \A i \in 1..k, j \in 1..D.p :
-     IF wh THEN Abs(f.comp[i][j]) <= SMD(11 * Rt(D.n) * 10, S, f.sig[i])
-           ELSE Abs(f.comp[i][j]) <= 11000
+  \A i \in 1..k :
+     LET b == IF wh THEN SMD(11 * Rt(D.n) * 10, S, f.sig[i]) ELSE 11000 IN
+     \A j \in 1..D.p : Abs(f.comp[i][j]) <= b
 
 \* components divided by the whitening scale sqrt(n-1)/sigma_i, at scale S
+\* (w * sig / (Rt * 100) with the factor F = sig * 10^6 / Rt = F1 * 10^4 + F0 computed once per row)
 NV(D, k, wh, f) ==
-  IF wh THEN [i \in 1..k |-> [j \in 1..D.p |-> SMD(f.comp[i][j], f.sig[i], Rt(D.n) * 100)]]
+  IF wh THEN [i \in 1..k |->
+                LET F == SMD(f.sig[i], SW, Rt(D.n))  F1 == F \div S  F0 == F % S IN
+                [j \in 1..D.p |-> MulS(f.comp[i][j], F1) + DivT(MulS(f.comp[i][j], F0), S)]]
         ELSE f.comp
 
 \* quantisation of a row of NV, in units of S
 EQ(D, k, wh, f) ==
-  [i \in 1..k |-> IF wh THEN 4 + f.sig[i] \div (200 * S) + (2 * S) \div f.sig[i] ELSE 1]
+  [i \in 1..k |-> IF wh THEN 7 + f.sig[i] \div (200 * S) + (2 * S) \div f.sig[i] ELSE 1]
+
+\* rows of NV are short enough for the dot products below (implied by unit length: |v|_1 <= sqrt(p))
+NvBound(D, k, nv, eq) ==
+  \A i \in 1..k : /\ AbsSum(nv[i]) <= 12000 * (Isqrt(D.p) + 1)
+                  /\ \A j \in 1..D.p : Abs(nv[i][j]) <= 11000 + eq[i]
 
 \* orthonormal directions
 OrthOk(D, k, nv, eq) ==
@@ -127,20 +151,20 @@ OrthOk(D, k, nv, eq) ==
      Abs(Dot(nv[i], nv[l]) - (IF i = l THEN S * S ELSE 0))
         <= (S * S) \div 1000 + 2 * (D.p + 1) * S * Max2(eq[i], eq[l])
 
-\* (M v) / g at scale S
-MV(D, g, v)  == [j \in 1..D.p |-> SumSeq([l \in 1..D.p |-> SMD(D.M[j][l], v[l], g)])]
-RowAbs(D, j) == AbsSum(D.M[j])
+\* (M v) / g at scale S, exact up to one unit: two limbs M = Mg * g + Mr, |Mr| < g
+MV(D, g, v)  == [j \in 1..D.p |-> Dot(D.Mg[j], v) + (IF D.g = 1 THEN 0 ELSE DivT(Dot(D.Mr[j], v), D.g))]
+RowAbs(D, j) == D.ra[j]                                  \* |row j of M| / g
+TruncG(D, v) == IF D.g = 1 THEN 0 ELSE 1                  \* truncation of the second limb
 
 \* eigen-equation of the sample covariance:  M v_i = n sigma_i^2 v_i
 MVs(D, k, g, nv) == [i \in 1..k |-> MV(D, g, nv[i])]     \* computed once per fit (LET-cached)
-EigOk(D, k, g, f, nv, eq, mvs) ==
+EigOk(D, k, g, f, nv, eq, mvs, tg) ==
   \A i \in 1..k :
-     LET mv == mvs[i]  s2 == S2(f, i) IN
-     \A j \in 1..D.p :
-        Abs(mv[j] - D.n * SMD(s2, nv[i][j], S * g))
-           <= TolRel(D, g)
-              + (RowAbs(D, j) * eq[i] + D.n * (2 * SigC(f, i) + (s2 \div S + 1) * eq[i])) \div g
-              + D.n + D.p + 2
+     LET mv == mvs[i]  s2 == S2(f, i)
+         base == TolRel(D, g) + (2 * D.n * SigC(f, i)) \div g + ((D.n * (s2 \div S + 1)) \div g + 1) * eq[i]
+                 + tg[i] + 2 * D.n + D.p + 2
+     IN \A j \in 1..D.p :
+           Abs(mv[j] - D.n * DivT(MulS(s2, nv[i][j]), g)) <= base + RowAbs(D, j) * eq[i]
 
 \* all p singular values: their squares add up to the total scatter (completeness certificate)
 TraceOk(D, g, f) ==
@@ -148,13 +172,14 @@ TraceOk(D, g, f) ==
      <= TolRel(D, g) + (D.n * SumSeq([i \in 1..D.p |-> SigC(f, i)])) \div g + D.n * D.p + 2
 
 \* v_i^T M v_l / g at scale S
-VMV(D, mvs, nv, i, l) == SumSeq([j \in 1..D.p |-> SMD(mvs[l][j], nv[i][j], S)])
+VMV(D, mvs, nv, i, l) == SumSeq([j \in 1..D.p |-> MulS(mvs[l][j], nv[i][j])])
 
 \* projected centred training data: uncorrelated coordinates with sample variance sigma_i^2/(n-1)
-CovOk(D, k, g, f, nv, eq, mvs) ==
-  \A i \in 1..k : \A l \in i..k :
+\* (all = FALSE: variances only; the off-diagonal part then follows from the eigen-equation and orthonormality)
+CovOk(D, k, g, f, nv, eq, mvs, tg, all) ==
+  \A i \in 1..k : \A l \in (IF all THEN i..k ELSE {i}) :
      LET c   == VMV(D, mvs, nv, i, l)
-         tol == 2 * TolRel(D, g) + 3 * (D.tr \div g + 1) * Max2(eq[i], eq[l]) + 2 * D.p + 2
+         tol == 2 * TolRel(D, g) + 3 * (D.tr \div g + 1) * Max2(eq[i], eq[l]) + 2 * D.p + 2 + 2 * (tg[i] + tg[l])
      IN IF i = l THEN Abs(c - D.n * (S2(f, i) \div g)) <= tol + (D.n * SigC(f, i)) \div g + D.n
                  ELSE Abs(c) <= tol
 
@@ -162,7 +187,7 @@ CovOk(D, k, g, f, nv, eq, mvs) ==
 EvOkDiv(dv, k, f) ==
   /\ f.evfin
   /\ \A i \in 1..k : /\ f.evar[i] >= 0 /\ f.evar[i] <= S2(f, i) + SigC(f, i) + 10
-                     /\ Abs(f.evar[i] - RoundDiv(S2(f, i), dv)) <= 2 + (SigC(f, i) + 1) \div dv
+                     /\ Abs(f.evar[i] - (S2(f, i) + dv \div 2) \div dv) <= 2 + (SigC(f, i) + 1) \div dv
 EvOk(D, k, f) == EvOkDiv(D.n - 1, k, f)
 
 \* ratios: finite, non-negative, fractions, proportional to the explained variances
@@ -171,7 +196,7 @@ RatioOk(D, k, f) ==
   /\ \A i \in 1..k : f.evr[i] >= 0 /\ f.evr[i] <= S + 1
   /\ SumSeq(f.evr) > 0
   /\ \A i \in 1..k : \A l \in (i + 1)..k :
-        Abs(SMD(S2(f, l), f.evr[i], S) - SMD(S2(f, i), f.evr[l], S))
+        Abs(MulS(S2(f, l), f.evr[i]) - MulS(S2(f, i), f.evr[l]))
            <= (S2(f, i) + S2(f, l)) \div S + SigC(f, i) + SigC(f, l) + 4
 
 \* agreement with the complete decomposition of the same data (full = its sigma^2 list):
@@ -179,7 +204,7 @@ RatioOk(D, k, f) ==
 LeadOk(D, k, f, full) ==
   /\ Len(full) = D.p
   /\ \A i \in 1..k :
-        Abs(S2(f, i) - full[i]) <= (D.tr \div D.n + 1) * (S \div 1000) + 2 * SigC(f, i) + 2
+        Abs(S2(f, i) - full[i]) <= (D.tr \div D.n + 1) * (S \div 10000) + 2 * SigC(f, i) + 2
 
 \* lattice of test directions: no direction outside the reported components carries more than sigma_k^2
 Unit(p, j)          == [q \in 1..p |-> IF q = j THEN 1 ELSE 0]
@@ -189,30 +214,33 @@ Lat1 == {<<1>>}
 Lat2 == {<<1, 0>>, <<0, 1>>, <<1, 1>>, <<1, -1>>}
 Lat3 == {<<1, 0, 0>>, <<0, 1, 0>>, <<0, 0, 1>>, <<1, 1, 0>>, <<1, -1, 0>>, <<1, 0, 1>>, <<1, 0, -1>>, <<0, 1, 1>>,
          <<0, 1, -1>>, <<1, 1, 1>>, <<1, 1, -1>>, <<1, -1, 1>>, <<1, -1, -1>>}
-LatU(p) ==
-  IF p = 1 THEN Lat1 ELSE IF p = 2 THEN Lat2 ELSE IF p = 3 THEN Lat3
-  ELSE {Unit(p, j) : j \in 1..p} \cup
-       {Pair(p, jl[1], jl[2], 1, t) : jl \in {x \in (1..p) \X (1..p) : x[1] < x[2]}, t \in {-1, 1}}
+LatU(p) == IF p = 1 THEN Lat1 ELSE IF p = 2 THEN Lat2 ELSE Lat3
+\* for p > 3: the unit directions e_j and e_j +/- e_l for |j - l| <= LatSpan(p)
+LatSpan(p) == IF p <= 8 THEN p ELSE 2
 QuadM(D, u) == SumSeq([j \in 1..D.p |-> u[j] * SumSeq([l \in 1..D.p |-> D.M[j][l] * u[l]])])
 
 \* everything is normalised by tr(M) so that all products stay small:
 \*   u^T (M/tr) u - sum_i (n sigma_i^2/tr) (v_i.u)^2  <=  (n sigma_k^2/tr) u.u   (+ slack), at scale S
 LatOk(D, k, f, nv, eq) ==
-  LET T   == D.tr
-      an  == [i \in 1..k |-> SMD(S2(f, i), D.n, T)]                              \* n sigma_i^2 / tr at scale S
-      \* deflated matrix (M - sum_i n sigma_i^2 v_i v_i^T) / tr at scale S, once per fit
-      Df  == [j \in 1..D.p |-> [l \in 1..D.p |->
-                SMD(D.M[j][l], S, T) - SumSeq([i \in 1..k |-> (an[i] * ((nv[i][j] * nv[i][l]) \div S)) \div S])]]
+  LET an  == [i \in 1..k |-> SMD(S2(f, i), D.n, D.tr)]                           \* n sigma_i^2 / tr at scale S
+      \* entry (j,l) of the deflated matrix (M - sum_i n sigma_i^2 v_i v_i^T) / tr at scale S
+      DfE(j, l) == D.Mn[j][l] - SumSeq([i \in 1..k |-> (an[i] * ((nv[i][j] * nv[i][l]) \div S)) \div S])
       eqm == MaxOf(eq)
-  IN \A u \in LatU(D.p) :
-       LET uu  == Dot(u, u)
-           u1  == AbsSum(u)
-           lhs == SumSeq([j \in 1..D.p |-> u[j] * Dot(Df[j], u)])
-       IN lhs <= an[k] * uu
+      Bound(uu, u1) == an[k] * uu
                  + (S * uu) \div 1000            \* numerical allowance 10^-3 tr |u|^2
                  + (S * u1 * u1 * eqm) \div 5000 \* quantisation of the components
                  + 10 * uu                       \* quantisation of sigma_i^2 (sigma >= 1/2)
                  + (2 * k + 1) * u1 * u1 + k * uu + 2   \* truncations
+  IN IF D.p <= 3
+       THEN LET Df == [j \in 1..D.p |-> [l \in 1..D.p |-> DfE(j, l)]] IN
+            \A u \in LatU(D.p) :
+               SumSeq([j \in 1..D.p |-> u[j] * Dot(Df[j], u)]) <= Bound(Dot(u, u), AbsSum(u))
+       ELSE LET dg == [j \in 1..D.p |-> DfE(j, j)] IN
+            /\ \A j \in 1..D.p : dg[j] <= Bound(1, 1)
+            /\ \A j \in 1..D.p : \A l \in (j + 1)..Min2(D.p, j + LatSpan(D.p)) :
+                  LET o == DfE(j, l) IN
+                  /\ dg[j] + dg[l] + 2 * o <= Bound(2, 2)
+                  /\ dg[j] + dg[l] - 2 * o <= Bound(2, 2)
 
 -----------------------------------------------------------------------------
 (* named deviations (known findings) -- each models what the defective code computes *)
@@ -238,10 +266,12 @@ FitWhy(D, k, wh, f, full, devs) ==
   ELSE IF ~CompBound(D, k, wh, f) THEN "component-magnitude"
   ELSE LET nv == NV(D, k, wh, f)  eq == EQ(D, k, wh, f)  g == G(D)
            mvs == MVs(D, k, g, nv)
+           tg  == [i \in 1..k |-> TruncG(D, nv[i])]
            ritz == DevRitz \in devs /\ k > 1 /\ k < D.p
-       IN IF ~OrthOk(D, k, nv, eq) THEN "orthonormal"
-          ELSE IF ~CovOk(D, k, g, f, nv, eq, mvs) THEN "projected-covariance"
-          ELSE IF ~ritz /\ ~EigOk(D, k, g, f, nv, eq, mvs) THEN "eigen-equation"
+       IN IF ~NvBound(D, k, nv, eq) THEN "component-magnitude"
+          ELSE IF ~OrthOk(D, k, nv, eq) THEN "orthonormal"
+          ELSE IF ~CovOk(D, k, g, f, nv, eq, mvs, tg, ritz \/ D.p <= 6) THEN "projected-covariance"
+          ELSE IF ~ritz /\ ~EigOk(D, k, g, f, nv, eq, mvs, tg) THEN "eigen-equation"
           ELSE IF k = D.p /\ ~TraceOk(D, g, f) THEN "trace"
           ELSE IF ~ritz /\ (k < D.p \/ wh) /\ ~LeadOk(D, k, f, full) THEN "leading-singular-values"
           ELSE IF ~ritz /\ k < D.p /\ ~wh /\ ~LatOk(D, k, f, nv, eq) THEN "rayleigh-bound"
@@ -278,12 +308,13 @@ ZCovOk(D, m, z) ==
          want == IF i # l THEN 0 ELSE IF m.wh THEN (D.n - 1) * S ELSE m.s2[i] \div g
      IN Abs(c - want) <= tol + (IF i = l /\ ~m.wh THEN SigC(m, i) ELSE 0)
 
+\* X: the training rows whose projection was logged (all of them, or a prefix for large n)
 ProjWhy(D, m, X, Q, pe) ==
   IF ~pe.fin THEN "finite"
   ELSE IF ~ZRowsOk(D, m, X, pe.z) THEN "predict(training)"
   ELSE IF ~ZRowsOk(D, m, X, pe.zt) THEN "transform(training)"
   ELSE IF ~ZRowsOk(D, m, Q, pe.zq) THEN "predict(probe)"
-  ELSE IF ~ZCovOk(D, m, pe.z) THEN "covariance-of-projection"
+  ELSE IF Len(X) = D.n /\ ~ZCovOk(D, m, pe.z) THEN "covariance-of-projection"   \* needs all training rows
   ELSE "ok"
 
 -----------------------------------------------------------------------------
@@ -292,10 +323,11 @@ ProjWhy(D, m, X, Q, pe) ==
 \* the point mean + sum_i c_i w_i/|w_i|^2 with c = z (rows w_i orthogonal, |w_i|^2 = (n-1)/sigma_i^2
 \* when whitened, 1 otherwise) ; unscaled = TRUE models `z . W + mean` regardless of whitening
 InvRow(D, m, z, unscaled) ==
+  LET coef == [i \in 1..m.k |-> IF m.wh /\ ~unscaled THEN SMD(z[i], m.s2[i], (D.n - 1) * S) ELSE z[i]] IN
   [j \in 1..D.p |-> m.mean[j] + SumSeq([i \in 1..m.k |->
-       IF ~m.wh THEN SMD(z[i], m.comp[i][j], S)
-       ELSE IF unscaled THEN SMD(z[i], m.comp[i][j], SW)
-       ELSE SMD(SMD(z[i], m.s2[i], (D.n - 1) * S), m.comp[i][j], SW)])]
+       IF ~m.wh THEN MulS(coef[i], m.comp[i][j])
+       ELSE IF Abs(coef[i]) <= 20000000 /\ Abs(m.comp[i][j]) <= 20000000 THEN FW(coef[i], m.comp[i][j])
+       ELSE SMD(coef[i], m.comp[i][j], SW)])]
 \* quantisation of the reconstruction (units of S): un-whitened (|v| dz + |z| dv)/S ; whitened: the
 \* relative error of sigma_i^2 (SigC/s2) is amplified by |z_i| |w_i| sigma_i^2/(n-1) <= 2 |z_i| / sigma_i
 TolInv(D, m, z, unscaled) ==
@@ -334,15 +366,23 @@ InvWhy(D, m, X, Q, pz, ie, unscaled) ==
 CONSTANT MaxA
 VARIABLE st
 
-NN == 5
+\* p = 4: n = 17 (16 rows of Rademacher sign patterns + the mean row), Hadamard rotation / 2, amplitudes up to
+\* 10 * MaxA so that tr(M) needs the scale reduction g = 100 and the sparse lattice of LatOk is used
+NNp(p) == IF p = 4 THEN 17 ELSE 5
+AN(p)  == IF p = 4 THEN 4 ELSE 2                                 \* |a_i| = sqrt(n - 1)
 A3 == << <<1, -1, 1, -1, 0>>, <<1, 1, -1, -1, 0>>, <<1, -1, -1, 1, 0>> >>
-QQ(p) == IF p = 2 THEN << <<3, 4>>, <<-4, 3>> >> ELSE << <<1, 2, 2>>, <<2, 1, -2>>, <<2, -2, 1>> >>
-QN(p) == IF p = 2 THEN 5 ELSE 3
-Offs(p) == IF p = 2 THEN {<<0, 0>>, <<1, -2>>} ELSE {<<0, 0, 0>>, <<1, -2, 3>>}
-ProbeD(p) == IF p = 2 THEN <<1, 2>> ELSE <<1, 2, -1>>           \* probe row = off + ProbeD
+Pow2(i) == IF i = 1 THEN 1 ELSE IF i = 2 THEN 2 ELSE IF i = 3 THEN 4 ELSE 8
+Pat(p, i, r) == IF p < 4 THEN A3[i][r]
+                ELSE IF r = 17 THEN 0 ELSE IF ((r - 1) \div Pow2(i)) % 2 = 0 THEN 1 ELSE -1
+QQ(p) == IF p = 2 THEN << <<3, 4>>, <<-4, 3>> >>
+         ELSE IF p = 3 THEN << <<1, 2, 2>>, <<2, 1, -2>>, <<2, -2, 1>> >>
+         ELSE << <<1, 1, 1, 1>>, <<1, 1, -1, -1>>, <<1, -1, 1, -1>>, <<1, -1, -1, 1>> >>
+QN(p) == IF p = 2 THEN 5 ELSE IF p = 3 THEN 3 ELSE 2
+Offs(p) == IF p = 2 THEN {<<0, 0>>, <<1, -2>>} ELSE IF p = 3 THEN {<<0, 0, 0>>, <<1, -2, 3>>} ELSE {<<1, -2, 3, 0>>}
+ProbeD(p) == IF p = 2 THEN <<1, 2>> ELSE IF p = 3 THEN <<1, 2, -1>> ELSE <<1, 2, -1, 3>>   \* probe row = off + ProbeD
 
 DataX(p, amp, off) ==
-  [r \in 1..NN |-> [j \in 1..p |-> off[j] + SumSeq([i \in 1..p |-> amp[i] * A3[i][r] * QQ(p)[i][j]])]]
+  [r \in 1..NNp(p) |-> [j \in 1..p |-> off[j] + SumSeq([i \in 1..p |-> amp[i] * Pat(p, i, r) * QQ(p)[i][j]])]]
 
 SortedOrds(p, amp) ==
   {o \in [1..p -> 1..p] : /\ \A a \in 1..p, b \in 1..p : a # b => o[a] # o[b]
@@ -371,11 +411,11 @@ AnsFit(p, amp, off, k, wh, ord, tag) ==
                         ELSE IF i = 2 THEN RoundDiv(3 * base[2][j] - 4 * base[1][j], 5)
                         ELSE base[i][j]]]
               ELSE base
-      sig  == [i \in 1..k |-> (IF tag = "sig2" THEN 2 ELSE 1) * 2 * amp[o[i]] * qn * S]
+      sig  == [i \in 1..k |-> (IF tag = "sig2" THEN 2 ELSE 1) * AN(p) * amp[o[i]] * qn * S]
       tot  == SumSeq([i \in 1..k |-> amp[o[i]] * amp[o[i]]])
   IN [mean |-> [j \in 1..p |-> IF tag = "nomean" THEN 0 ELSE off[j] * S],
       sig |-> sig, sigk |-> [i \in 1..k |-> <<sig[i], 0, 0>>], comp |-> comp,
-      evar |-> [i \in 1..k |-> IF tag = "evn" THEN RoundDiv(4 * amp[o[i]] * amp[o[i]] * qn * qn * S, NN)
+      evar |-> [i \in 1..k |-> IF tag = "evn" THEN RoundDiv(AN(p) * AN(p) * amp[o[i]] * amp[o[i]] * qn * qn * S, NNp(p))
                                                ELSE amp[o[i]] * amp[o[i]] * qn * qn * S],
       evr |-> [i \in 1..k |-> IF tag = "ratioflat" THEN RoundDiv(S, k) ELSE RoundDiv(amp[o[i]] * amp[o[i]] * S, tot)],
       fin |-> TRUE, evfin |-> TRUE, evrfin |-> TRUE]
@@ -390,7 +430,7 @@ Expected(p, amp, off, k, ord, tag) ==
     [] tag = "ratioflat" -> \A i \in 1..(k - 1) : amp[ord[i]] = amp[ord[i + 1]]
     [] OTHER -> FALSE
 
-FullS2(p, amp, ord) == [i \in 1..p |-> Sq4(2 * amp[ord[i]] * QN(p) * S)]
+FullS2(p, amp, ord) == [i \in 1..p |-> Sq4(AN(p) * amp[ord[i]] * QN(p) * S)]
 
 \* exact projections / reconstructions of the correct model
 AnsProj(p, amp, off, k, wh, ord, ptag) ==
@@ -399,7 +439,7 @@ AnsProj(p, amp, off, k, wh, ord, ptag) ==
       zr(d, i) == IF wh THEN RoundDiv(Dot(d, QQ(p)[ord[i]]) * S, qn * qn * amp[ord[i]])
                         ELSE RoundDiv(Dot(d, QQ(p)[ord[i]]) * S, qn)
       X == DataX(p, amp, off)
-      z == [r \in 1..NN |-> [i \in 1..k |-> zr([j \in 1..p |-> X[r][j] - off[j] + sh[j]], i)]]
+      z == [r \in 1..NNp(p) |-> [i \in 1..k |-> zr([j \in 1..p |-> X[r][j] - off[j] + sh[j]], i)]]
       zq == << [i \in 1..k |-> zr([j \in 1..p |-> ProbeD(p)[j] + sh[j]], i)] >>
   IN [z |-> z, zt |-> z, zq |-> zq, fin |-> TRUE]
 
@@ -412,19 +452,23 @@ AnsInv(p, amp, off, k, wh, ord, itag) ==
                      THEN RoundDiv(Dot(d, QQ(p)[ord[i]]) * QQ(p)[ord[i]][j] * S, qn * qn * qn * qn * amp[ord[i]] * amp[ord[i]])
                      ELSE RoundDiv(Dot(d, QQ(p)[ord[i]]) * QQ(p)[ord[i]][j] * S, qn * qn)])]
       X == DataX(p, amp, off)
-  IN [rx |-> [r \in 1..NN |-> rec([j \in 1..p |-> X[r][j] - off[j]])],
+  IN [rx |-> [r \in 1..NNp(p) |-> rec([j \in 1..p |-> X[r][j] - off[j]])],
       rq |-> << rec(ProbeD(p)) >>, fin |-> TRUE]
 
 DInit == st = [ph |-> "init"]
 
 GenData ==
   /\ st.ph = "init"
-  /\ \E p \in {2, 3} : \E amp \in [1..p -> 1..MaxA], off \in Offs(p) :
-        st' = [ph |-> "data", p |-> p, amp |-> amp, off |-> off]
+  /\ \/ \E p \in {2, 3} : \E amp \in [1..p -> 1..MaxA], off \in Offs(p) :
+           st' = [ph |-> "data", p |-> p, amp |-> amp, off |-> off]
+     \/ \E b \in [1..4 -> 1..MaxA], sc \in {1, 10}, off \in Offs(4) :
+           /\ \A i \in 1..3 : b[i] >= b[i + 1]
+           /\ st' = [ph |-> "data", p |-> 4, amp |-> [i \in 1..4 |-> sc * b[i]], off |-> off]
 
 AnswerFit ==
   /\ st.ph = "data"
-  /\ \E k \in 1..st.p, wh \in BOOLEAN, tag \in Tags, ord \in SortedOrds(st.p, st.amp) :
+  /\ \E k \in 1..st.p, wh \in BOOLEAN, tag \in Tags,
+        ord \in (IF st.p = 4 THEN {<<1, 2, 3, 4>>} ELSE SortedOrds(st.p, st.amp)) :   \* p = 4: amplitudes are generated sorted
         /\ tag = "trailing" => k < st.p
         /\ tag = "rot" => ~wh /\ k >= 2
         /\ LET D == Summary(DataX(st.p, st.amp, st.off), st.p)
@@ -475,9 +519,9 @@ ClauseSensitive ==
         f  == AnsFit(st.p, st.amp, st.off, st.k, st.wh, st.ord, st.tag)
         nv == NV(D, st.k, st.wh, f)
         eq == EQ(D, st.k, st.wh, f)
-    IN CASE st.tag = "rot"      -> ~EigOk(D, st.k, G(D), f, nv, eq, MVs(D, st.k, G(D), nv))
+    IN CASE st.tag = "rot"      -> ~EigOk(D, st.k, G(D), f, nv, eq, MVs(D, st.k, G(D), nv), [i \in 1..st.k |-> TruncG(D, nv[i])])
          [] st.tag = "trailing" -> ~LeadOk(D, st.k, f, FullS2(st.p, st.amp, st.ord)) /\ (st.wh \/ ~LatOk(D, st.k, f, nv, eq))
-         [] st.tag = "sig2"     -> st.k = st.p => ~TraceOk(D, G(D), f)
+         [] st.tag = "sig2"     -> (st.k = st.p /\ SigOk(D, st.k, f)) => ~TraceOk(D, G(D), f)   \* (TraceOk is guarded by SigOk)
          [] st.tag = "scale105" -> ~OrthOk(D, st.k, nv, eq)
 
 \* algebra of the exact summary: M is the scatter of the centred rows, symmetric, translation invariant
@@ -489,8 +533,8 @@ ScatterIdentity ==
             /\ D.M[j][l] = D.M[l][j]
             /\ D.n * D.M[j][l] = SumSeq([r \in 1..D.n |-> Yc(D, X[r])[j] * Yc(D, X[r])[l]])
        /\ D.M = D0.M
-       /\ D.tr = NN * SumSeq([i \in 1..st.p |-> 4 * st.amp[i] * st.amp[i] * QN(st.p) * QN(st.p)])
-       /\ \A u \in LatU(st.p) : QuadM(D, u) >= 0
+       /\ D.tr = NNp(st.p) * SumSeq([i \in 1..st.p |-> AN(st.p) * AN(st.p) * st.amp[i] * st.amp[i] * QN(st.p) * QN(st.p)])
+       /\ st.p <= 3 => \A u \in LatU(st.p) : QuadM(D, u) >= 0
 
 \* SMD is exact truncated division of the product (checked where the product fits)
 ArithOk ==
